@@ -979,6 +979,110 @@ func (c *Ctx) errorDisciplineOn(rule, fname string, info *types.Info, g *cfgx.Gr
 			})
 		}
 	}
+	// E4: a value obtained together with an error is not used where the current tests say the error is set
+	for _, v := range g.Nodes() {
+		as, ok := v.Node.(*ast.AssignStmt)
+		if !ok || len(as.Rhs) != 1 || len(as.Lhs) < 2 {
+			continue
+		}
+		if _, isCall := ast.Unparen(as.Rhs[0]).(*ast.CallExpr); !isCall {
+			continue
+		}
+		var errObj types.Object
+		var vals []types.Object
+		for _, l := range as.Lhs {
+			id, ok := l.(*ast.Ident)
+			if !ok || id.Name == "_" {
+				continue
+			}
+			o := astx.Obj(info, id)
+			if o == nil {
+				continue
+			}
+			if types.Identical(o.Type(), errT) {
+				errObj = o
+			} else {
+				vals = append(vals, o)
+			}
+		}
+		if errObj == nil || len(vals) == 0 {
+			continue
+		}
+		for _, val := range vals {
+			redefined := func(x int) bool {
+				as2, ok := g.V[x].Node.(*ast.AssignStmt)
+				if !ok || x == v.ID {
+					return false
+				}
+				for _, l := range as2.Lhs {
+					if id, ok := l.(*ast.Ident); ok && astx.Obj(info, id) == val {
+						return true
+					}
+				}
+				return false
+			}
+			errRedef := func(x *cfgx.Vertex) bool {
+				as2, ok := x.Node.(*ast.AssignStmt)
+				if !ok || x.ID == v.ID {
+					return false
+				}
+				for _, l := range as2.Lhs {
+					if id, ok := l.(*ast.Ident); ok && astx.Obj(info, id) == errObj {
+						return true
+					}
+				}
+				return false
+			}
+			reach := g.Reach(v.ID, redefined, nil)
+			var onErrEdge []*cfgx.Vertex
+			elsewhere := false
+			for _, u := range g.Nodes() {
+				if !reach[u.ID] || u.ID == v.ID || !astx.Mentions(info, u.Node, val) {
+					continue
+				}
+				if errRedef(u) || g.Between(v.ID, u.ID, errRedef) {
+					elsewhere = true // the error variable has been re-used since: nothing is known about this result's error
+					continue
+				}
+				sawNil, sawNonNil := false, false
+				for _, cv := range g.V {
+					if len(cv.Succ) != 2 || cv.Succ[0].Cond == nil {
+						continue
+					}
+					for _, e := range cv.Succ {
+						if e.Tag != nil || !reach[cv.ID] || !g.EdgeDominates(e, u.ID) {
+							continue
+						}
+						for _, f := range cfgx.ExpandCond(e.Cond, e.Val) {
+							x, isNil, ok := nilCompare(info, f)
+							if !ok {
+								continue
+							}
+							if xid, ok := ast.Unparen(x).(*ast.Ident); ok && astx.Obj(info, xid) == errObj {
+								if isNil {
+									sawNil = true
+								} else {
+									sawNonNil = true
+								}
+							}
+						}
+					}
+				}
+				if sawNonNil && !sawNil {
+					onErrEdge = append(onErrEdge, u)
+				} else {
+					elsewhere = true
+				}
+			}
+			// `return n, err` on the error edge of a Write-like call is idiomatic; a value that is used ONLY where the error is
+			// set is the inverted test
+			if len(onErrEdge) > 0 && !elsewhere {
+				u := onErrEdge[0]
+				r.Fail(rule, fname, "a result is not used only on the edge where its error is set", c.P.Pos(u.Node.Pos()),
+					"the value "+val.Name()+" returned together with an error is used exclusively where the dominating test established that the error is not nil: the test is inverted — the failed result is stored or parsed, the good one is dropped: "+detail)
+			}
+		}
+	}
 	// E3: an error test with an empty branch — both edges of the test lead to the same statement
 	skipTails := func(x int) int {
 		for k := 0; k < 8; k++ {
